@@ -36,15 +36,17 @@ def catalogue(rng):
     n = rng.randint(2, 64)
     lit = rng.choice(["'tc'", "'a table'", "'Sales 2024'"])
     ft = rng.choice(["'|'", "';'", "'$'"])
-    eng = rng.choice(["InnoDB", "MyISAM"])
-    cs = rng.choice(["utf8", "latin1", "utf8mb4"])
+    eng = rng.choice(["InnoDB", "MyISAM", '"InnoDB"'])
+    cs = rng.choice(["utf8", "latin1", "utf8mb4", '"utf8"'])
     from vf.gen import vocab
     tricky = vocab.tricky_names()
-    ts = rng.choice(["users", "TS_1", "data01", tricky[rng.randrange(len(tricky))], tricky[rng.randrange(len(tricky))]])
+    delim = rng.choice(['"USERSPACE1"', '"Ts 1"', "[FG_2]", "`bt`", '"delta"'])      # delimited operands are reported with their delimiters (calibrated in every slot)
+    ts = rng.choice(["users", "TS_1", "data01", tricky[rng.randrange(len(tricky))], tricky[rng.randrange(len(tricky))], delim])
+    ts_ix = rng.choice(['"IDXSPACE1"', "[ix_fg]"]) if ts[0] in '"[`' else ts + "_ix"
     # after TABLESPACE every word except IF is a name on the pinned tree (calibrated), keyword-shaped ones included
     ts_ora = rng.choice([ts, ts] + [k.lower() for k in vocab.grammar_keywords() if k != "IF"][rng.randrange(3)::3][:40])
     parent = rng.choice(["parent2", tricky[rng.randrange(len(tricky))]])
-    fg = rng.choice(["[PRIMARY]", "fg1", "[FG_2]"])
+    fg = rng.choice(["[PRIMARY]", "fg1", "[FG_2]", '"PRIMARY"', '"BLOBS"'])
     ds = rng.choice(["KEY", "ALL", "EVEN"])
     col = rng.choice(["a", "b"])
     return {
@@ -109,11 +111,11 @@ def catalogue(rng):
              C("partition_by", "PARTITION BY HASH (a, b)", {"partition_by": {"columns": ["a", "b"], "type": "HASH"}}, "common")],
         ]),
         "spark_sql": (True, [
-            [C("using", "USING parquet", {"using": "parquet"}, "props"), C("using", "USING delta", {"using": "delta"}, "props")],
+            [C("using", "USING parquet", {"using": "parquet"}, "props"), C("using", "USING delta", {"using": "delta"}, "props"), C("using", 'USING "delta"', {"using": '"delta"'}, "props")],
         ]),
         "ibm_db2": (True, [
             [C("tablespace", "IN " + ts, {"tablespace": ts}, "common")],
-            [C("index_in", "INDEX IN " + ts + "_ix", {"index_in": ts + "_ix"})],
+            [C("index_in", "INDEX IN " + ts_ix, {"index_in": ts_ix})],
             [C("organize_by", "ORGANIZE BY ROW", {"organize_by": "ROW"})],
         ]),
     }
